@@ -9,6 +9,9 @@ package main
 //	cutoff_offset       D in `cutoff := now.Add(D)`                                       (Trim)
 //	trim_subdir_count   N in `for i := range N` of Trim;  open_subdir_count: same in Open
 //	trim_file_name      the one string literal joined to c.dir in Trim (read and written)
+//	parse_base/bits     BASE, BITS in strconv.ParseInt(strings.TrimSpace(string(data)), BASE, BITS)      (Trim)
+//	                    (also checked: lastTrim := time.Unix(t, 0) with t the parsed value, and the
+//	                    record written as fmt.Fprintf(&b, "%d", now.Unix()))
 //	trim_suffixes       the literals of the strings.HasSuffix(name, LIT) tests of trimSubdir,
 //	                    which must have the shape `!HasSuffix(..) && !HasSuffix(..) {continue}`
 //	index_suffix        SEP+KEY with SEP from fileName's `...+"-"+key` and KEY from get's fileName(id, "a")
@@ -235,6 +238,64 @@ func genCacheTrim(g *gen) {
 			}
 			return true
 		})
+		// strconv.ParseInt(strings.TrimSpace(string(data)), 10, 64); time.Unix(t, 0); Fprintf(&b, "%d", now.Unix())
+		parse, unix, record := false, false, false
+		parsed := ""
+		ast.Inspect(fn.Body, func(n ast.Node) bool {
+			switch n := n.(type) {
+			case *ast.IfStmt:
+				if as, ok := n.Init.(*ast.AssignStmt); ok && len(as.Lhs) == 2 && len(as.Rhs) == 1 {
+					if c, ok := as.Rhs[0].(*ast.CallExpr); ok && isSel(c.Fun, "strconv", "ParseInt") && len(c.Args) == 3 {
+						if ts, ok := c.Args[0].(*ast.CallExpr); ok && isSel(ts.Fun, "strings", "TrimSpace") && len(ts.Args) == 1 {
+							if conv, ok := ts.Args[0].(*ast.CallExpr); ok && len(conv.Args) == 1 {
+								if f, ok := conv.Fun.(*ast.Ident); ok && f.Name == "string" {
+									if id, ok := as.Lhs[0].(*ast.Ident); ok {
+										if cond, ok := n.Cond.(*ast.BinaryExpr); ok && cond.Op == token.EQL {
+											if y, ok := cond.Y.(*ast.Ident); ok && y.Name == "nil" {
+												parsed = id.Name
+												g.emitZExpr("parse_base", "Trim: ParseInt base", dir, c.Args[1])
+												g.emitZExpr("parse_bits", "Trim: ParseInt bit size", dir, c.Args[2])
+												parse = true
+											}
+										}
+									}
+								}
+							}
+						}
+					}
+				}
+			case *ast.AssignStmt:
+				if len(n.Lhs) == 1 && len(n.Rhs) == 1 {
+					if c, ok := n.Rhs[0].(*ast.CallExpr); ok && isSel(c.Fun, "time", "Unix") && len(c.Args) == 2 {
+						a0, ok0 := c.Args[0].(*ast.Ident)
+						a1, ok1 := c.Args[1].(*ast.BasicLit)
+						if ok0 && ok1 && a0.Name == parsed && parsed != "" && a1.Value == "0" {
+							unix = true
+						}
+					}
+				}
+			case *ast.CallExpr:
+				if isSel(n.Fun, "fmt", "Fprintf") && len(n.Args) == 3 {
+					if s, ok := strLit(n.Args[1]); ok && s == "%d" {
+						if _, recv, ok := methodCall(n.Args[2], "Unix"); ok {
+							if id, ok := recv.(*ast.Ident); ok && id.Name == "now" {
+								record = true
+							}
+						}
+					}
+				}
+			}
+			return true
+		})
+		if !parse {
+			g.fail("cache: Trim no longer reads the record with `t, err := strconv.ParseInt(strings.TrimSpace(string(data)), BASE, BITS); err == nil`")
+		}
+		if !unix {
+			g.fail("cache: Trim no longer has `lastTrim := time.Unix(t, 0)` with t the parsed record")
+		}
+		if !record {
+			g.fail("cache: Trim no longer writes the record as fmt.Fprintf(&b, \"%%d\", now.Unix())")
+		}
 		if !window {
 			g.fail("cache: Trim no longer has `if d := now.Sub(lastTrim); d < A && d > B { return nil }`")
 		}
